@@ -565,4 +565,18 @@ theorem editParamG_sameShape {g g' : Graph} {n0 : Nat} {c0 : Content} (hg : edit
     · cases hg
   · cases hg
 
+theorem setAttrK_some {g g' : Graph} {n : Nat} {k : Kind} {c : Content} (h : setAttrK g n k c = some g') :
+    setAttrG g n c = some g' := by
+  simp only [setAttrK] at h
+  split at h
+  · exact h
+  · cases h
+
+theorem editParamK_some {g g' : Graph} {n : Nat} {k : Kind} {c : Content} (h : editParamK g n k c = some g') :
+    editParamG g n c = some g' := by
+  simp only [editParamK] at h
+  split at h
+  · exact h
+  · cases h
+
 end GlueVerif.C05Cache
